@@ -94,6 +94,21 @@ impl Prop for PGlob {
             let fx = build_fixture(&dir, &subjects);
             let mut o = run_one(&dir, &fx, &pat, fold);
             o["name_ok"] = json!(fx.name_ok);
+            // the subject of -name for a starting point is the last component of its spelling
+            if let Some(sp) = input.get("spells") {
+                std::fs::create_dir_all(dir.join("R").join("sub")).unwrap();
+                let errf = dir.parent().unwrap().join("stderr.txt");
+                let mut hits = vec![];
+                for spell in arr(sp) {
+                    let args: Vec<String> = vec![cps_to_string(&spell), "-maxdepth".into(), "0".into(), (if fold { "-iname" } else { "-name" }).to_string(), pat.clone(), "-print0".into()];
+                    let r = run_find_inproc(&dir, &args, None, &errf);
+                    if r.panicked {
+                        return json!({"panic": true, "args": args});
+                    }
+                    hits.push(!split_nul(&r.out).is_empty());
+                }
+                o["rootname"] = json!(hits);
+            }
             return o;
         }
         if self.universe.is_none() {
@@ -160,7 +175,12 @@ impl Prop for PGlob {
                 _ => pat.push(*rng.pick(&lits)),
             }
         }
-        // subjects: mutations of strings the pattern could match, plus noise
+        // one case in four is about the names of starting points ("R", ".", "..", "sub"): short patterns around them
+        let rootcase = rng.chance(1, 4);
+        if rootcase {
+            let pool = [".", "..", "R", "r", "?", "??", "*", ".*", "[.]", "[!.]", "\\.", "sub", "s*", "*.", "R/", "R/.", "???", "[.][.]", "*[!.]", "SUB"];
+            pat = rng.pick(&pool).chars().map(|c| c as u32).collect();
+        }
         let mut subjects: Vec<Vec<u32>> = vec![];
         let ns = 6 + rng.below(10);
         for _ in 0..ns {
@@ -249,7 +269,12 @@ impl Prop for PGlob {
                 }
             });
         }
-        json!({"pat": pat, "fold": rng.chance(1, 3), "subjects": subjects})
+        let mut v = json!({"pat": pat, "fold": rng.chance(1, 3), "subjects": subjects});
+        if rootcase {
+            let spells = ["R", "R/", "R/.", "R/..", "./R", "R/./", ".", "./", "R/sub", "R/sub/", "R/sub/..", "R/sub/.", "R//sub", "..", "R/./sub"];
+            v["spells"] = json!(spells.iter().map(|x| str_to_json(x)).collect::<Vec<_>>());
+        }
+        v
     }
 
     fn same(&self, exp: &Value, obs: &Value) -> bool {
